@@ -11,7 +11,7 @@ RULE = ('the REAL CVise.reduce (shim-driven) in a scratch working directory hold
         'layouts: unrelated files, a sub-directory, pre-existing X.orig files for some test cases, unusual permission bits on '
         'the test cases; passes write through temp files (mode 0600) as the real passes do; runs end by success, no progress, '
         'ZeroSizeError or PassBugError; recursive snapshot (path, bytes, mode) and cwd before/after; oracle: X.orig bytes, '
-        'untouched pre-existing .orig, nothing else changed but test cases and cvise_bug_*/cvise_extra_*, modes restored after '
+        'untouched pre-existing .orig (older than, as old as and newer than the test case), nothing else changed but test cases and cvise_bug_*/cvise_extra_*, modes restored after '
         'completed passes, cwd unchanged; the writes observed (commits, restores, reports) are replayed through the Coq Fs '
         'model and its final directory compared with the real one; non-trivial = distinct scenarios with >= 1 commit')
 TRUSTED = ['hand-written model coq/Fs/Fs.v tied to cvise/utils/testing.py (backup_test_cases, process_result, restore_mode, report dirs) by this correspondence run',
@@ -28,6 +28,8 @@ def gen(rnd):
                 p['newfix'] = scengen.gen_content(rnd, 1, 4)     # new() reformats the file in place (kept if still interesting)
     sc['extra_files'] = [('notes.txt', 'keep me'), ('b/other.h', 'int x;'), ('deep/er/z.txt', '')][: rnd.randint(1, 3)]
     sc['pre_orig'] = [n for n, _ in sc['files'] if rnd.random() < 0.3]
+    # a backup left by an earlier session is OLDER than the (since reduced) test case; a hand-made one may be newer
+    sc['pre_orig_age'] = {n: rnd.choice([-1000, -1000, 0, 1000]) for n in sc['pre_orig']}
     sc['modes'] = {n: rnd.choice([0o644, 0o600, 0o755, 0o640, 0o664]) for n, _ in sc['files']}
     if rnd.random() < 0.1:
         sc['files'] = [(n, '') for n, _ in sc['files']]
@@ -46,6 +48,8 @@ def prepare_for(sc):
             with open(os.path.join(work, n + '.orig'), 'w') as f:
                 f.write('previous original of ' + n)
             os.chmod(os.path.join(work, n + '.orig'), 0o444)
+            t = os.stat(os.path.join(work, n)).st_mtime + sc.get('pre_orig_age', {}).get(n, 0)
+            os.utime(os.path.join(work, n + '.orig'), (t, t))
         for n, m in sc['modes'].items():
             os.chmod(os.path.join(work, n), m)
     return prepare
